@@ -36,12 +36,28 @@ OF THIS SOFTWARE, EVEN IF ADVISED OF THE POSSIBILITY OF SUCH DAMAGE.
 #include "cpu.hpp"
 #include <cassert>
 #include <limits>
+#include "verif_hooks.h"
 
 #if defined(__SSE__) || defined(__SSE2__) || (defined(_M_IX86_FP) && (_M_IX86_FP > 0))
 #define USE_CSR_INTRINSICS
 #include <xmmintrin.h>
 #else
 #include <cfenv>
+#endif
+
+#ifdef RANDOMX_VERIF
+#ifdef USE_CSR_INTRINSICS
+#define RANDOMX_VERIF_CSR() _mm_getcsr()
+#else
+#define RANDOMX_VERIF_CSR() fegetround()
+#endif
+extern "C" {
+	randomx_verif_sink_t randomx_verif_sink = nullptr;
+	unsigned int randomx_verif_iterations = RANDOMX_PROGRAM_ITERATIONS;
+	__thread unsigned long long randomx_verif_executed = 0;
+}
+#else
+#define RANDOMX_VERIF_CSR() 0
 #endif
 
 extern "C" {
@@ -135,6 +151,10 @@ extern "C" {
 		if (cache->cacheKey != cacheKey || !cache->isInitialized()) {
 			cache->initialize(cache, key, keySize);
 			cache->cacheKey = cacheKey;
+			RANDOMX_VERIF_EVENT("init_cache", cache, 1, 0);
+		}
+		else {
+			RANDOMX_VERIF_EVENT("init_cache", cache, 0, 0);
 		}
 	}
 
@@ -363,6 +383,10 @@ extern "C" {
 		if (machine->cacheKey != cache->cacheKey || machine->getMemory() != cache->memory) {
 			machine->setCache(cache);
 			machine->cacheKey = cache->cacheKey;
+			RANDOMX_VERIF_EVENT("set_cache", machine, 1, cache);
+		}
+		else {
+			RANDOMX_VERIF_EVENT("set_cache", machine, 0, cache);
 		}
 	}
 
@@ -388,18 +412,22 @@ extern "C" {
 		fenv_t fpstate;
 		fegetenv(&fpstate);
 #endif
+		RANDOMX_VERIF_EVENT("hash_enter", machine, RANDOMX_VERIF_CSR(), 0);
 
 		alignas(16) uint64_t tempHash[8];
 		int blakeResult = blake2b(tempHash, sizeof(tempHash), input, inputSize, nullptr, 0);
 		assert(blakeResult == 0);
 		machine->initScratchpad(&tempHash);
 		machine->resetRoundingMode();
+		RANDOMX_VERIF_EVENT("hash_reset", machine, RANDOMX_VERIF_CSR(), 0);
 		for (int chain = 0; chain < RANDOMX_PROGRAM_COUNT - 1; ++chain) {
 			machine->run(&tempHash);
+			RANDOMX_VERIF_EVENT("prog", machine, RANDOMX_VERIF_CSR(), chain);
 			blakeResult = blake2b(tempHash, sizeof(tempHash), machine->getRegisterFile(), sizeof(randomx::RegisterFile), nullptr, 0);
 			assert(blakeResult == 0);
 		}
 		machine->run(&tempHash);
+		RANDOMX_VERIF_EVENT("prog", machine, RANDOMX_VERIF_CSR(), RANDOMX_PROGRAM_COUNT - 1);
 		machine->getFinalResult(output, RANDOMX_HASH_SIZE);
 
 #ifdef USE_CSR_INTRINSICS
@@ -407,20 +435,26 @@ extern "C" {
 #else
 		fesetenv(&fpstate);
 #endif
+		RANDOMX_VERIF_EVENT("hash_exit", machine, RANDOMX_VERIF_CSR(), 0);
 	}
 
 	void randomx_calculate_hash_first(randomx_vm* machine, const void* input, size_t inputSize) {
+		RANDOMX_VERIF_EVENT("first_enter", machine, RANDOMX_VERIF_CSR(), 0);
 		blake2b(machine->tempHash, sizeof(machine->tempHash), input, inputSize, nullptr, 0);
 		machine->initScratchpad(machine->tempHash);
 	}
 
 	void randomx_calculate_hash_next(randomx_vm* machine, const void* nextInput, size_t nextInputSize, void* output) {
+		RANDOMX_VERIF_EVENT("next_enter", machine, RANDOMX_VERIF_CSR(), 0);
 		machine->resetRoundingMode();
+		RANDOMX_VERIF_EVENT("hash_reset", machine, RANDOMX_VERIF_CSR(), 0);
 		for (uint32_t chain = 0; chain < RANDOMX_PROGRAM_COUNT - 1; ++chain) {
 			machine->run(machine->tempHash);
+			RANDOMX_VERIF_EVENT("prog", machine, RANDOMX_VERIF_CSR(), chain);
 			blake2b(machine->tempHash, sizeof(machine->tempHash), machine->getRegisterFile(), sizeof(randomx::RegisterFile), nullptr, 0);
 		}
 		machine->run(machine->tempHash);
+		RANDOMX_VERIF_EVENT("prog", machine, RANDOMX_VERIF_CSR(), RANDOMX_PROGRAM_COUNT - 1);
 
 		// Finish current hash and fill the scratchpad for the next hash at the same time
 		blake2b(machine->tempHash, sizeof(machine->tempHash), nextInput, nextInputSize, nullptr, 0);
@@ -428,12 +462,16 @@ extern "C" {
 	}
 
 	void randomx_calculate_hash_last(randomx_vm* machine, void* output) {
+		RANDOMX_VERIF_EVENT("last_enter", machine, RANDOMX_VERIF_CSR(), 0);
 		machine->resetRoundingMode();
+		RANDOMX_VERIF_EVENT("hash_reset", machine, RANDOMX_VERIF_CSR(), 0);
 		for (int chain = 0; chain < RANDOMX_PROGRAM_COUNT - 1; ++chain) {
 			machine->run(machine->tempHash);
+			RANDOMX_VERIF_EVENT("prog", machine, RANDOMX_VERIF_CSR(), chain);
 			blake2b(machine->tempHash, sizeof(machine->tempHash), machine->getRegisterFile(), sizeof(randomx::RegisterFile), nullptr, 0);
 		}
 		machine->run(machine->tempHash);
+		RANDOMX_VERIF_EVENT("prog", machine, RANDOMX_VERIF_CSR(), RANDOMX_PROGRAM_COUNT - 1);
 		machine->getFinalResult(output, RANDOMX_HASH_SIZE);
 	}
 
